@@ -696,27 +696,6 @@ Definition altered_of (s : fspec) (t0 t : tree) : list N :=
 Definition fresh_of (t : tree) : nat :=
   List.length (filter (fun r => match r_uid r with Fresh _ => true | U _ => false end) (t_ents t)).
 
-(* "the model, run on this deletion, yields this observation": error kind, set of lost entities, number of entities with
-   a new identifier; the observed altered entities are among those the model alters (an attribute equal to its class
-   default leaves no observable difference) and the project attributes change only if the model says so *)
-Definition check_obs (fuel : nat) (s : fspec) (t0 : tree) (x : item) (oerr : option err) (lost alt : list N) (fresh : nat)
-           (proj : bool) : bool :=
-  item_inb (layout s) x &&
-  match load fuel G (delete_item (layout s) x), oerr with
-  | Err e, Some e' => err_eqb e e'
-  | Ok t, None =>
-      let ml := lost_of s t0 t in
-      subsetN ml lost && subsetN lost ml
-      && subsetN alt (altered_of s t0 t)
-      && Nat.eqb (fresh_of t) fresh
-      && (negb proj || negb (amap_eqb (t_proj t) (t_proj t0)))
-  | _, _ => false
-  end.
-
-(* the intact file reads back as its content *)
-Definition intact_ok (fuel : nat) (s : fspec) : bool :=
-  match load fuel G (layout s) with Ok t => tree_eqb t (abs s) | Err _ => false end.
-
 (* ------------------------------------------------------------------ well-formed specifications (what the library writes) *)
 Definition key_of (t : etree) : N * ekind := (et_uid t, et_kind t).
 Definition child_keys (t : etree) : list (N * ekind) :=
@@ -766,3 +745,144 @@ Definition wfb (s : fspec) : bool :=
   && ekind_eqb (et_kind (fs_root s)) KGroup
   && forallb (ent_ok s) (subtrees (fs_root s)).
 Definition wf (s : fspec) : Prop := wfb s = true.
+
+(* ------------------------------------------------------------------ the entities an item describes (with the descendants that
+   hang on it), and which items the format document makes optional *)
+Definition ent_at (s : fspec) (fk : key) (u : N) : option etree :=
+  match kind_of_flat fk with Some k => find_ent s k u | None => None end.
+Definition users (s : fspec) (k : ekind) (ty : N) : list N :=
+  map et_uid (filter (fun t => ekind_eqb (et_kind t) k && N.eqb (et_ty t) ty) (subtrees (fs_root s))).
+Definition of_kind_subtrees (s : fspec) (k : ekind) : list N :=
+  flat_map uids (filter (fun t => ekind_eqb (et_kind t) k) (subtrees (fs_root s))).
+
+Definition described_by (s : fspec) (x : item) : list N :=
+  match item_addr x with
+  | [] =>
+      match x with
+      | IAttr _ _ => []                                           (* a project attribute *)
+      | ILink _ lk =>
+          match kind_of_flat lk with
+          | Some KGroup => uids (fs_root s)                       (* flat container of the groups: the root's children hang on it *)
+          | Some k => of_kind_subtrees s k                        (* flat container of the objects / of the data *)
+          | None => []                                            (* Types (no entity); Root is treated separately *)
+          end
+      end
+  | [KTypes; KTF k; KU ty] => users s k ty                        (* an attribute, colour map or value map of a type *)
+  | [KTypes; KTF k; KU ty; KCmap] => users s k ty                 (* an attribute of the colour map *)
+  | [fk] =>
+      match x, kind_of_flat fk with
+      | ILink _ (KU u), Some k => match find_ent s k u with Some t => uids t | None => [] end   (* flat entry of an entity *)
+      | _, _ => []                                                (* type containers *)
+      end
+  | [fk; KU u] =>
+      match ent_at s fk u with
+      | None => []
+      | Some t =>
+          match x with
+          | IAttr _ KID => uids t                                 (* the identifier: the children are found through it *)
+          | IAttr _ _ => [u]
+          | ILink _ KType => uids t
+          | ILink _ lk =>
+              match kind_of_flat lk, lookup lk (et_dsets t) with
+              | Some ck, None => flat_map uids (kids_of_kind t ck) (* a child container: the children listed in it *)
+              | _, _ => [u]                                       (* a dataset, the property-group block *)
+              end
+          end
+      end
+  | [fk; KU u; k2] =>
+      match ent_at s fk u with
+      | None => []
+      | Some t =>
+          match x, kind_of_flat k2 with
+          | ILink _ (KU v), Some ck => flat_map uids (filter (fun c => N.eqb (et_uid c) v) (kids_of_kind t ck))  (* entry of a child *)
+          | _, _ => [u]                                           (* a property group *)
+          end
+      end
+  | [fk; KU u; KPGs; _] => match ent_at s fk u with Some _ => [u] | None => [] end
+  | _ => []
+  end.
+
+(* optional per the format document (Tables_Reader.doc_entries, extracted from docs/content/geoh5_format) and the property text:
+   optional attributes, the Root link, a property-group block, a colour or value map, an empty child container;
+   mandatory: identifier, name, Type link, flat containers and their entries, entries of children, datasets/attributes the
+   document lists without an "optional"/"default" mark.  Anything the document does not mention is optional. *)
+Fixpoint doc_optional (sec name : string) (l : list (string * string * bool)) : bool :=
+  match l with
+  | [] => true
+  | (s0, n0, o) :: r => if String.eqb s0 sec && String.eqb n0 name then o else doc_optional sec name r
+  end.
+Definition sec_of (k : ekind) : string := match k with KGroup => "group" | KObject => "object" | KData => "data" end.
+Definition tsec_of (k : ekind) : string := match k with KGroup => "group_type" | KObject => "object_type" | KData => "data_type" end.
+Definition name_of_key (k : key) : string :=
+  match k with KN n => n | KID => "ID" | KName => "Name" | KPrim => "Primitive type" | KDatas => "Data" | _ => "" end.
+
+Definition optional (s : fspec) (x : item) : bool :=
+  match item_addr x with
+  | [] =>
+      match x with
+      | IAttr _ k => doc_optional "workspace" (name_of_key k) doc_entries
+      | ILink _ KRoot => true
+      | ILink _ _ => false
+      end
+  | [KTypes; KTF k; KU _] =>
+      match x with
+      | IAttr _ KID | IAttr _ KName => false
+      | IAttr _ kk => doc_optional (tsec_of k) (name_of_key kk) doc_entries
+      | ILink _ _ => true                                         (* colour map, value map *)
+      end
+  | [KTypes; KTF _; KU _; KCmap] => true
+  | [_] => false                                                  (* entries of flat containers and of the type containers *)
+  | [fk; KU u] =>
+      match ent_at s fk u with
+      | None => false
+      | Some t =>
+          match x with
+          | IAttr _ KID | IAttr _ KName => false
+          | IAttr _ kk => doc_optional (sec_of (et_kind t)) (name_of_key kk) doc_entries
+          | ILink _ KType => false
+          | ILink _ KPGs => true
+          | ILink _ lk =>
+              match kind_of_flat lk, lookup lk (et_dsets t) with
+              | Some ck, None => match kids_of_kind t ck with [] => true | _ => false end     (* an empty child container *)
+              | _, _ => doc_optional (sec_of (et_kind t)) (name_of_key lk) doc_entries       (* a dataset *)
+              end
+          end
+      end
+  | [fk; KU u; k2] => match kind_of_flat k2 with Some _ => false | None => true end          (* child entry / property group *)
+  | [_; KU _; KPGs; _] => true
+  | _ => false
+  end.
+
+Definition is_root_link (x : item) : bool :=
+  match x with ILink [] KRoot => true | _ => false end.
+
+(* the two theorems of Properties/C19.v, evaluated on one deletion (a sanity check of the statements on every corpus case) *)
+Definition is_proj_attr (x : item) : bool := match x with IAttr [] _ => true | _ => false end.
+Definition thm_instance_okb (fuel : nat) (s : fspec) (t0 : tree) (x : item) : bool :=
+  is_root_link x ||
+  match load fuel G (delete_item (layout s) x) with
+  | Err e => negb (optional s x) && negb (err_eqb e OutOfFuel)
+  | Ok t => agree_outsideb s (negb (is_proj_attr x)) (described_by s x) t t0
+  end.
+
+(* "the model, run on this deletion, yields this observation": error kind, set of lost entities, number of entities with
+   a new identifier; the observed altered entities are among those the model alters (an attribute equal to its class
+   default leaves no observable difference) and the project attributes change only if the model says so *)
+Definition check_obs (fuel : nat) (s : fspec) (t0 : tree) (x : item) (oerr : option err) (lost alt : list N) (fresh : nat)
+           (proj : bool) : bool :=
+  item_inb (layout s) x && thm_instance_okb fuel s t0 x &&
+  match load fuel G (delete_item (layout s) x), oerr with
+  | Err e, Some e' => err_eqb e e'
+  | Ok t, None =>
+      let ml := lost_of s t0 t in
+      subsetN ml lost && subsetN lost ml
+      && subsetN alt (altered_of s t0 t)
+      && Nat.eqb (fresh_of t) fresh
+      && (negb proj || negb (amap_eqb (t_proj t) (t_proj t0)))
+  | _, _ => false
+  end.
+
+(* the intact file reads back as its content *)
+Definition intact_ok (fuel : nat) (s : fspec) : bool :=
+  match load fuel G (layout s) with Ok t => tree_eqb t (abs s) | Err _ => false end.
+
